@@ -380,7 +380,12 @@ func configCoqConfig(a configAConfig) string {
 }
 
 // ---------------------------------------------------------------- YAML rendering
-func configIdStr(prefix string, n int) string { return prefix + strconv.Itoa(n) }
+func configIdStr(prefix string, n int) string {
+	if n == 0 {
+		return `""` // the empty string (only reachable for list members; scalar keys are omitted instead)
+	}
+	return prefix + strconv.Itoa(n)
+}
 
 func configRenderYaml(in configIn, work string) string {
 	var b strings.Builder
@@ -850,7 +855,7 @@ func configAstHasCycle(a configAConfig) bool {
 // exit 0 = returned, 10 = panic; a stack overflow aborts the process (exit 2).
 func init() {
 	drivers["config_child"] = func(ctx *Ctx) {
-		debug.SetMaxStack(48 << 20)
+		debug.SetMaxStack(16 << 20)
 		if msg := configLoadYaml(ctx.Params["yaml"]); msg != "" {
 			os.Exit(11)
 		}
@@ -896,7 +901,7 @@ func configRunChild(ctx *Ctx, yamlPath, kind string, idx int) int {
 			return 2
 		}
 		return 1
-	case <-time.After(60 * time.Second):
+	case <-time.After(15 * time.Second):
 		_ = cmd.Process.Kill()
 		<-done
 		return 2
@@ -1328,7 +1333,7 @@ func configApplyDefect(r *Rng, in *configIn, k int) string {
 		c0.Id = 0
 		return "curve-noid"
 	case 47:
-		if c := configFindFunc(in); c != nil {
+		if c := configFindFunc(in); c != nil && len(c.Func.Curves) > 0 {
 			c.Func.Curves = []int{c.Func.Curves[0], c.Func.Curves[0]}
 			return "member-twice"
 		}
@@ -1341,7 +1346,7 @@ func configApplyDefect(r *Rng, in *configIn, k int) string {
 			return "steps-singleton"
 		}
 	case 50:
-		if c := configFindFunc(in); c != nil {
+		if c := configFindFunc(in); c != nil && len(c.Func.Curves) > 0 {
 			c.Func.Curves = c.Func.Curves[:1]
 			return "func-one-member"
 		}
@@ -1426,11 +1431,11 @@ func configTagsFor(in configIn, obs configObs, gen string) []string {
 
 func init() {
 	drivers["config"] = func(ctx *Ctx) {
-		// every endless recursion costs several child processes; after 30 such cases the
+		// every endless recursion costs several child processes; after 12 such cases the
 		// verdict is settled (each is a failing input) and generation stops
 		hangs := 0
 		emit := func(in configIn, gen string, extra ...string) {
-			if hangs >= 30 {
+			if hangs >= 12 {
 				return
 			}
 			obs, coq := configRunConfig(ctx, in)
